@@ -344,8 +344,8 @@ def toksText (r : Rng) (style : Nat) (ts : List Tok) : Rng × String := Id.run d
     r := r'
     out := out ++ sep ++ s
     match t with
-    | .p .lpar | .p .lsqb => depth := depth + 1
-    | .p .rpar | .p .rsqb => depth := depth - 1
+    | .p .lpar | .p .lsqb | .p .lbrace => depth := depth + 1
+    | .p .rpar | .p .rsqb | .p .rbrace => depth := depth - 1
     | _ => pure ()
     prev := some t
   return (r, out)
